@@ -8,48 +8,48 @@ def add(pid, technique, text, note, ref):
     T[pid] = dict(technique=technique, text=text, note=note, ref=ref)
 
 REF = "trusted: the harness reference matcher (harness/src/refm.rs, independent of the crate), rustc, the proptest runner; classes listed as known findings are excluded from exploration and probed by fixed witnesses"
-add('C01', "property-based testing: differential against a reference backtracking matcher (exhaustive small-scope enumeration + context x filler products + proptest-driven random ASTs, shrinking)",
+add('C01', "property-based testing and fuzzing: differential against a reference backtracking matcher (exhaustive small-scope enumeration, context x filler products, flag-group / wide-pattern / long-text stages, proptest-driven random ASTs with shrinking; thorough: libFuzzer campaign fuzz_diff with the same oracle in the target)",
     "exploration: every generated (pattern, text, offset) is searched by the crate and by an independent reference matcher and the spans must be equal; exhaustive up to a node bound, seeded random beyond; no proof of absence", REF, "DESIGN.md section 5 C01")
-add('C02', "property-based testing: differential against a reference backtracking matcher, all capture groups compared",
+add('C02', "property-based testing and fuzzing: differential against a reference backtracking matcher, all capture groups compared (same generators as C01; thorough: libFuzzer campaigns fuzz_diff and fuzz_prop/C02-flags)",
     "exploration: as C01 but every capture group of every match is compared with the reference winning path", REF, "DESIGN.md section 5 C02")
-add('C15', "property-based testing: differential against a reference matcher implementing the documented conditional semantics",
+add('C15', "property-based testing and fuzzing: differential against a reference matcher implementing the documented conditional semantics (thorough: libFuzzer campaign fuzz_prop/C15)",
     "exploration: exhaustive small trees with both conditional forms at every position, conditional contexts x fillers, random ASTs; captures compared with the reference", REF, "DESIGN.md section 5 C15")
 
 NOREF = "trusted: rustc, the proptest runner, the harness's own span/model code; no external reference is needed for this oracle"
 add('C05', "property-based testing / fuzzing: validity predicate under catch_unwind over an unrestricted pattern grammar (exhaustive small scope, products, proptest random ASTs)",
     "exploration: every public search entry point is driven on every generated (pattern, text, offset); any panic, invalid span or non-terminating iterator is a counterexample", NOREF, "DESIGN.md section 5 C05")
-add('C08', "property-based testing: model-based check of the find_iter history against a reference iteration model + sequence invariants + error histories",
+add('C08', "property-based testing and fuzzing: model-based check of the find_iter history against a reference iteration model + sequence invariants + error histories (thorough: libFuzzer campaign fuzz_prop/C08)",
     "exploration: whole yielded sequences compared with the reference iteration model; invariants checked independently of the model; Err histories via tiny backtrack limits", REF, "DESIGN.md section 5 C08")
-add('C09', "property-based testing: metamorphic comparison of the search entry points with each other",
+add('C09', "property-based testing and fuzzing: metamorphic comparison of the search entry points with each other, also under a tiny backtrack limit (thorough: libFuzzer campaign fuzz_prop/C09)",
     "exploration: is_match / find / find_from_pos / captures / captures_from_pos / find_iter / captures_iter compared pairwise on every generated case", NOREF, "DESIGN.md section 5 C09")
-add('C10', "property-based testing: model-based check of split / splitn against the find_iter matches (partition + rebuild + limit model)",
+add('C10', "property-based testing and fuzzing: model-based check of split / splitn against the find_iter matches (partition + rebuild + limit model; thorough: libFuzzer campaign fuzz_prop/C10)",
     "exploration: pieces, rebuild round-trip, splitn limit model and fusedness on every generated (pattern, text)", NOREF, "DESIGN.md section 5 C10")
-add('C11', "property-based testing: model-based check of try_replacen / replace / replace_all against captures_iter + independent template scanner",
+add('C11', "property-based testing and fuzzing: model-based check of try_replacen / replace / replace_all against captures_iter + independent template scanner (thorough: libFuzzer campaign fuzz_prop/C11)",
     "exploration: 12 replacers x limits 0..3 on every generated (pattern, text); fast path vs slow path agreement; Err instead of panic under a tiny backtrack limit", NOREF, "DESIGN.md section 5 C11")
-add('C16', "property-based testing: metadata oracle computed from the generator's AST (group count, names), two engine forms per pattern",
+add('C16', "property-based testing: metadata oracle computed from the generator's AST (group count, names, iterator protocol of Captures::iter), two engine forms per pattern",
     "exploration: captures_len / capture_names / Captures::{len,iter,get,name} against the AST for delegated and VM-compiled forms", NOREF, "DESIGN.md section 5 C16")
-add('C03', "property-based testing: metamorphic relation (insert the no-op (?=) at every site; results must not change), exhaustive single sites + random multi-site",
+add('C03', "property-based testing and fuzzing: metamorphic relation (insert the no-op (?=) at every site; results must not change), exhaustive single sites + random multi-site (thorough: libFuzzer campaign fuzz_prop/C03)",
     "exploration: captures_from_pos of P and of every single-site injection P' compared on every text and offset; the injection provably changes the VM/automata split (measured per case)", NOREF, "DESIGN.md section 5 C03")
-add('C04', "property-based testing: differential against the regex crate over the whole public API on the shared syntax",
+add('C04', "property-based testing and fuzzing: differential against the regex crate over the whole public API on the shared syntax (thorough: libFuzzer campaign fuzz_prop/C04)",
     "exploration: ~60 API calls per (pattern, text) compared with regex::Regex; exhaustive small trees, flag variants, named groups, random ASTs", "trusted: the regex crate as oracle; one-sided compile failures are counted, not judged", "DESIGN.md section 5 C04")
 add('C06', "fuzzing / property-based testing: exhaustive token sequences + proptest random token sequences and mutations of valid patterns, run in worker processes under a counting allocator and RLIMIT_AS",
     "exploration: every generated string is compiled through Regex::new, Expr::parse_tree and RegexBuilder; panic, overflow, crash, oversized allocation or an out-of-range error position is a counterexample", "trusted: the counting allocator and the 256 MiB + 4 MiB*len peak cap as the stand-in for 'memory proportional to the pattern'; wall clock is only a watchdog", "DESIGN.md section 5 C06")
-add('C12', "property-based testing: exhaustive templates over a syntax alphabet + proptest fragment sequences against an independent template scanner; escape round-trip; one-directional check() relation",
-    "exploration: every template x 6 capture sets x 2 expanders through all five expansion entry points", "trusted: the template model written from the doc comments (harness/src/model.rs)", "DESIGN.md section 5 C12")
-add('C14', "property-based testing: metamorphic (builder option vs (?i) prefix, neutral options vs none) + differential on delegate_size_limit against regex::RegexBuilder::size_limit applied to the delegated pieces",
+add('C12', "property-based testing and fuzzing: exhaustive templates over a syntax alphabet + proptest fragment sequences against an independent template scanner; escape round-trip; one-directional check() relation; short-writing writers (thorough: libFuzzer campaign fuzz_prop/C12 on raw template bytes)",
+    "exploration: every template x 8 capture sets x 2 expanders through all five expansion entry points", "trusted: the template model written from the doc comments (harness/src/model.rs)", "DESIGN.md section 5 C12")
+add('C14', "property-based testing and fuzzing: metamorphic (builder option vs (?i) prefix, neutral options vs none, option combinations) + differential on delegate_size_limit and on the default size limit against regex::RegexBuilder applied to the delegated pieces (thorough: libFuzzer campaign fuzz_prop/C14)",
     "exploration: option combinations on every generated (pattern, text, offset); size-limit accept/reject compared per delegated piece", "trusted: regex::RegexBuilder::size_limit forwards to the same NFA size limit", "DESIGN.md section 5 C14")
-add('C17', "property-based testing: exhaustive short strings over all meta-characters + proptest strings, escaped and embedded in host patterns, against str::find",
-    "exploration: find span == str::find span on texts derived from each string (embedded, doubled, near misses) for 9 hosts; borrow and shape of escape", "trusted: str::find", "DESIGN.md section 5 C17")
-add('C20', "property-based testing: stateful model-based test of the VM backtracking state (exhaustive short histories + proptest long histories with bursts) against a whole-state-copy model; program-level companion vs the reference matcher",
+add('C17', "property-based testing and fuzzing: exhaustive short strings over all meta-characters + proptest strings, escaped and embedded in 15 host patterns (three built through RegexBuilder::case_insensitive), pairs of escaped strings as look-behind / look-ahead alternatives, against str methods (thorough: libFuzzer campaign fuzz_prop/C17)",
+    "exploration: find span == str::find span on texts derived from each string (embedded, doubled, near misses, case-swapped) for 15 hosts and 3 pair hosts; borrow and shape of escape", "trusted: str::find", "DESIGN.md section 5 C17")
+add('C20', "property-based testing and fuzzing: stateful model-based test of the VM backtracking state (exhaustive short histories + proptest long histories with bursts, three slot layouts) against a whole-state-copy model; program-level companion vs the reference matcher (thorough: libFuzzer campaign fuzz_prop/C20 on byte-decoded histories)",
     "exploration: every step of every generated history compared (slots, branch count, auxiliary stack, pop results), final unwind included", "trusted: the hook wrapper forwards unchanged to the private State; the copy model is ~40 lines", "DESIGN.md section 5 C20")
-add('C07', "property-based testing: per-case threshold oracle from hook statistics (backtracks of the unlimited run) over a set of backtrack limits; reference-step bound for spurious limit errors; instruction/stack bounds",
+add('C07', "property-based testing and fuzzing: per-case threshold oracle from hook statistics (backtracks of the unlimited run) over a set of backtrack limits and entry points; reference-step bound for spurious limit errors (incl. loops around committing constructs on long texts); instruction/stack bounds (thorough: libFuzzer campaign fuzz_prop/C07)",
     "exploration: every VM-compiled generated (pattern, text, offset) under 8 (+3 exact) limits; sharp threshold L < B <=> error", REF + "; the run statistics hook", "DESIGN.md section 5 C07")
 add('C13', "property-based testing: instrumented reference matcher records the lengths every sub-expression really matches and compares them with the analysis facts read through the hook; differential on look-behind products over multi-byte texts",
     "exploration: facts of every node of every generated pattern (also of patterns the compiler then rejects) against observed match lengths; look-behind behaviour against the reference", REF + "; conversion Expr -> reference AST (shape-checked per pattern)", "DESIGN.md section 5 C13")
-add('C18', "stress testing with a differential oracle (single-threaded results), proptest-generated call sequences, barrier start, in-flight overlap measurement; compile-time Send/Sync/Clone assertion crate",
+add('C18', "stress testing with a differential oracle (single-threaded results): proptest-generated call sequences over a corpus and over freshly generated VM patterns, barrier start, hot-spot and iterator-state hammer rounds, stuck-round (deadlock) detection, in-flight overlap measurement; compile-time Send/Sync/Clone assertion crate; thorough: ThreadSanitizer build",
     "exploration (weakest check): the schedule is the OS's; a violation is only reported if provoked; results of every concurrent call compared with the single-threaded result", "trusted: nothing beyond std; no schedule control for regex-automata's pool with the installed tooling", "DESIGN.md section 5 C18")
-add('C19', "property-based testing: metamorphic respelling (11 transformers over the token stream) with tree equality via Expr::parse_tree and behavioural equality; printer/parser/conversion round trip",
-    "exploration: every generated pattern x 11 respellings; trees equal (modulo the case flag of caseless literals) and captures equal on every text and offset", NOREF, "DESIGN.md section 5 C19")
+add('C19', "property-based testing: metamorphic respelling (13 transformers over the token stream, 24 bracketed-class item pairs) with tree equality via Expr::parse_tree and behavioural equality; printer/parser/conversion round trip",
+    "exploration: every generated pattern x 13 respellings; trees equal (modulo the case flag of caseless literals) and captures equal on every text and offset", NOREF, "DESIGN.md section 5 C19")
 
 import os
 TABLE = '/verif/tools/manifest_table.json'
